@@ -18,6 +18,7 @@ import Noodles.Vcf.DriverC09
 import Noodles.Vcf.DriverC09Header
 import Noodles.Sam.DriverC06
 import Noodles.Util.DriverC20
+import Noodles.Util.DriverC20More
 import Noodles.Io.DriverC12
 import Noodles.Io.DriverC12More
 import Noodles.Bgzf.DriverC16
@@ -44,7 +45,7 @@ def dispatch (line : String) : String :=
   | "c14" :: rest => Bgzf.SM.handleC14 rest
   | "c09" :: rest => (Vcf.DriverHeader.handle? rest).getD (Vcf.Driver.handle rest)
   | "c06" :: rest => Sam.Drv.handleC06 rest
-  | "c20" :: rest => Util.handleC20 rest
+  | "c20" :: rest => (Util.DriverMore.handle? rest).getD (Util.handleC20 rest)
   | "c12" :: rest => IO.handleC12All rest
   | "c16" :: rest => Bgzf.Async.handleC16 rest
   | "c08" :: rest => Cram.DriverC08.handle rest
